@@ -26,10 +26,34 @@ HARNESS_C = r'''
 #include <string.h>
 #include <stdlib.h>
 #include <fcntl.h>
+#include <glob.h>
 #include "c.c"
+/* the listing the REAL cleanImplementationFiles works on: its own glob() call (whatever pattern / flags it passes) goes
+   through this recorder, so the order of the entries it visits is observed, not re-derived */
+static char* obs_order = NULL; static size_t obs_len = 0, obs_cap = 0; static int obs_calls = 0;
+static void obs_add(const char* s, size_t n) {
+    if (obs_len + n + 1 > obs_cap) { obs_cap = 2 * (obs_len + n + 1); obs_order = realloc(obs_order, obs_cap); if (!obs_order) abort(); }
+    memcpy(obs_order + obs_len, s, n); obs_len += n; obs_order[obs_len] = 0;
+}
+static int obs_glob(const char* pattern, int flags, int (*errfunc)(const char*, int), glob_t* g) {
+    int r = glob(pattern, flags, errfunc, g);
+    obs_calls++;
+    if (r == 0) {
+        size_t i;
+        for (i = 0; i < g->gl_pathc; i++) {
+            const char* q = g->gl_pathv[i]; char hx[3];
+            if (i) obs_add(",", 1);
+            if (!*q) obs_add("-", 1);
+            for (; *q; q++) { sprintf(hx, "%02x", (unsigned char)*q); obs_add(hx, 2); }
+        }
+    }
+    return r;
+}
+#define glob obs_glob
 #define main w2c2_main
 #include "main.c"
 #undef main
+#undef glob
 
 static int unhex(const char* h, char* out, size_t cap) {
     size_t n = 0;
@@ -59,6 +83,13 @@ int main(void) {
             cleanImplementationFiles();
             if (fchdir(home) != 0) return 3;
             puts("ok");
+        } else if (n == 2 && !strcmp(w[0], "cleanobs") && unhex(w[1], a, sizeof a)) {
+            /* like `clean`, and reports the listing (glob order) the function iterated over: `ok <calls> <hex,hex,…|->` */
+            if (chdir(a) != 0) { puts("err chdir"); fflush(stdout); continue; }
+            obs_len = 0; obs_calls = 0; if (obs_order) obs_order[0] = 0;
+            cleanImplementationFiles();
+            if (fchdir(home) != 0) return 3;
+            printf("ok %d %s\n", obs_calls, obs_len ? obs_order : "-");
         } else if (n == 4 && !strcmp(w[0], "impl") && unhex(w[1], a, sizeof a)) {
             WasmFunctionIDs ids = emptyWasmFunctionIDs;
             bool r;
